@@ -215,12 +215,17 @@ func mk08(kind string, s *srv08, maxq int) *tr08 {
 		t.ex, t.close = tp.ExchangeContext, func() { tp.Close() }
 		return t
 	}
+	if kind == "pipeline-udp" { // the pipeline over datagram sockets, as the plain udp upstream is built
+		s.mu.Lock()
+		s.stream = false
+		s.mu.Unlock()
+	}
 	tp := transport.NewPipelineTransport(transport.PipelineOpts{MaxConcurrentQueryWhileDialing: maxq, DialContext: func(ctx context.Context) (transport.DnsConn, error) {
 		c, err := s.dial()
 		if err != nil {
 			return nil, err
 		}
-		dc := transport.NewDnsConn(transport.TraditionalDnsConnOpts{WithLengthHeader: true, IdleTimeout: 10 * time.Second, MaxConcurrentQuery: maxq}, c)
+		dc := transport.NewDnsConn(transport.TraditionalDnsConnOpts{WithLengthHeader: kind != "pipeline-udp", IdleTimeout: 10 * time.Second, MaxConcurrentQuery: maxq}, c)
 		return &armDnsConn{inner: dc, fake: c, armed: t.armed, extra: t.extra}, nil
 	}})
 	t.ex, t.close = tp.ExchangeContext, func() { tp.Close() }
@@ -342,7 +347,7 @@ func rep08(turn string, n int) []string {
 }
 
 func runC08(r *Run) {
-	bound := map[string]int{"reuse": 4, "pipeline": 3}
+	bound := map[string]int{"reuse": 4, "pipeline": 3, "pipeline-udp": 3}
 	// check applies the property's own predicate to one finished query.
 	check := func(kind string, res res08, line string, n int, desc map[string]any, staleKnown int, freshWorks bool, closedT bool) {
 		desc["result"] = line
@@ -362,6 +367,48 @@ func runC08(r *Run) {
 		}
 	}
 
+	// ---- the same over datagram sockets (pipeline as the plain udp upstream builds it): a socket whose writes fail
+	// (route gone, ICMP error) or that reports an error on read is dead as well
+	for rep := 0; rep < r.N(1, 6); rep++ {
+		kind := "pipeline-udp"
+		// ---- A/C/D: k silently dead pooled connections, then a fresh one that works / fails / cannot be dialed
+		for k := 0; k <= 6; k++ {
+			for _, kill := range []string{"eof-after-write", "reset-on-write"} {
+				for _, fresh := range []string{"works", "fails", "dialfail"} {
+					s := newSrv08()
+					t := mk08(kind, s, 1)
+					if k > 0 {
+						t.burst(s, k)
+					}
+					pool := len(s.live())
+					s.setAll(kill)
+					switch fresh {
+					case "works":
+						s.setDefault("answer")
+					case "fails":
+						s.setDefault(kill)
+					case "dialfail":
+						s.mu.Lock()
+						s.dialFail = true
+						s.mu.Unlock()
+					}
+					ctx, cancel := context.WithTimeout(context.Background(), 3*time.Second)
+					res := t.query(ctx)
+					cancel()
+					line, n := classify08(kind, s, res, 0, pool)
+					turns := rep08("pooled0", k)
+					turns = append(turns, map[string]string{"works": "fresh1", "fails": "fresh0", "dialfail": "dialFail"}[fresh])
+					desc := map[string]any{"transport": kind, "scenario": "stale-pool", "dead_pooled_connections": k, "kill": kill, "fresh_connection": fresh, "pool_size_before": pool}
+					check(kind, res, line, n, desc, k, fresh == "works", false)
+					r.Line(fmt.Sprintf("loop %s %s", "pipeline", strings.Join(turns, ",")), line)
+					r.Eval(fmt.Sprintf("A/%s/%d/%s/%s", kind, k, kill, fresh), true)
+					r.Count(kind + ":stale-pool:" + fresh)
+					r.Trace()
+					t.close()
+				}
+			}
+		}
+	}
 	kinds := []string{"reuse", "pipeline"}
 	reps := r.N(2, 12)
 	for rep := 0; rep < reps; rep++ {
